@@ -65,7 +65,10 @@ def main():
                   f"demo_passes_on_original={rc_do == 0} detected_by={detected} "
                   f"exits={ {c: res[c]['exit'] for c in checks} }")
             if valid:
-                label = os.environ.get("SEED_LABEL", x)      # third batch: SEED_LABEL=C
+                # later batches are filed under other letters: SEED_LABEL=C (one mutant) or SEED_LABELS=D,E
+                label = os.environ.get("SEED_LABEL", x)
+                if os.environ.get("SEED_LABELS"):
+                    label = dict(zip("AB", os.environ["SEED_LABELS"].split(",")))[x]
                 dst = os.path.join(VERIF, "seeded", f"{prop}-{label}")
                 os.makedirs(dst, exist_ok=True)
                 shutil.copy(diff, os.path.join(dst, "patch.diff"))
